@@ -31,7 +31,7 @@ def oracle_part(ctx: vlib.Ctx, n: int, label="oracle"):
     r = ctx.rng
     t0 = time.time()
     stats = {"ok": 0, "genfail": 0, "fail": 0, "refs": 0, "defs": 0, "docs": 0}
-    deadline = t0 + (60 if ctx.quick() else 480)
+    deadline = t0 + (50 if ctx.quick() else 480)
     done = 0
     for i in range(n):
         if time.time() > deadline:
